@@ -16,6 +16,8 @@
 //	t   id mode pw apkind srpB srpid salt1 salt2 g P b regpw | implClass implSrpid implA implM1 refVerdict expectClass expectVerdict tags
 //	    (regpw = the EXACT byte string whose verifier the server holds; pw = what is typed into the exported wrapper)
 //
+// every x/r/t line ends with two more fields: layout (how the byte slices were handed in) and intact|MODIFIED
+//
 // mode: calc = the model computes every modexp itself (small groups), orac = it uses the me table.
 package main
 
@@ -225,20 +227,125 @@ func refClient(r *rec, pw, srpB, s1, s2 []byte, g int32, P, random []byte) (A []
 // ---------------------------------------------------------------------------------------------
 // implementation under test
 
-func implSRP(pw string, srpB []byte, mp *srp.ModPow, random []byte) (class string, A, M1 []byte) {
+// ---- how the byte-slice inputs are handed in -------------------------------------------------
+// The callee must neither depend on nor write to anything but the bytes s[0:len(s)] of its inputs:
+//
+//	sep    every slice exactly sized and separately allocated
+//	spare  every slice has 48 bytes of spare capacity (guard pattern) behind it
+//	s1s2   guard | salt1 | salt2 | guard      (windows of ONE array; cap(salt1) reaches over salt2)
+//	s2s1   guard | salt2 | salt1 | guard
+//	all    guard | salt1 | salt2 | srpB | P | random | guard
+//	rev    guard | random | P | srpB | salt2 | salt1 | guard
+//
+// The whole backing arrays (guards and spare capacity included) are compared before/after.
+var layouts = []string{"sep", "spare", "s1s2", "s2s1", "all", "rev"}
+
+const guardByte = 0xa5
+
+type laid struct {
+	s1, s2, B, P, random []byte
+	bufs, snaps          [][]byte
+}
+
+func (l *laid) track(buf []byte) {
+	l.bufs = append(l.bufs, buf)
+	l.snaps = append(l.snaps, append([]byte(nil), buf...))
+}
+
+func (l *laid) intact() bool {
+	for i := range l.bufs {
+		if !bytes.Equal(l.bufs[i], l.snaps[i]) {
+			return false
+		}
+	}
+	return true
+}
+
+func layOut(kind string, s1, s2, B, P, random []byte) *laid {
+	l := &laid{}
+	own := func(b []byte, spare int) []byte {
+		if b == nil && spare == 0 {
+			return nil
+		}
+		buf := make([]byte, len(b)+spare)
+		for i := range buf {
+			buf[i] = guardByte
+		}
+		copy(buf, b)
+		l.track(buf)
+		return buf[:len(b)]
+	}
+	// windows of one array, in the given order, 16 guard bytes in front and 64 behind
+	shared := func(parts ...*[]byte) {
+		n := 16 + 64
+		for _, p := range parts {
+			n += len(*p)
+		}
+		buf := make([]byte, n)
+		for i := range buf {
+			buf[i] = guardByte
+		}
+		off := 16
+		for _, p := range parts {
+			copy(buf[off:], *p)
+			w := buf[off : off+len(*p)] // capacity reaches to the end of the array, over the following windows
+			off += len(*p)
+			*p = w
+		}
+		l.track(buf)
+	}
+	l.s1, l.s2, l.B, l.P, l.random = s1, s2, B, P, random
+	switch kind {
+	case "spare":
+		l.s1, l.s2, l.B, l.P, l.random = own(s1, 48), own(s2, 48), own(B, 48), own(P, 48), own(random, 48)
+	case "s1s2":
+		shared(&l.s1, &l.s2)
+		l.B, l.P, l.random = own(B, 0), own(P, 0), own(random, 0)
+	case "s2s1":
+		shared(&l.s2, &l.s1)
+		l.B, l.P, l.random = own(B, 0), own(P, 0), own(random, 0)
+	case "all":
+		shared(&l.s1, &l.s2, &l.B, &l.P, &l.random)
+	case "rev":
+		shared(&l.random, &l.P, &l.B, &l.s2, &l.s1)
+	default:
+		l.s1, l.s2, l.B, l.P, l.random = own(s1, 0), own(s2, 0), own(B, 0), own(P, 0), own(random, 0)
+	}
+	return l
+}
+
+func intactStr(ok bool) string {
+	if ok {
+		return "intact"
+	}
+	return "MODIFIED"
+}
+
+// the values in srpB/mp/random are the ORIGINALS (kept by the caller for the reference side);
+// the implementation receives copies laid out as `kind` says
+func implSRP(pw string, srpB []byte, mp *srp.ModPow, random []byte, kind string) (class string, A, M1 []byte, intact string) {
+	var l *laid
+	mp2 := mp
+	if mp != nil {
+		l = layOut(kind, mp.Salt1, mp.Salt2, srpB, mp.P, random)
+		mp2 = &srp.ModPow{Salt1: l.s1, Salt2: l.s2, G: mp.G, P: l.P}
+	} else {
+		l = layOut(kind, nil, nil, srpB, nil, random)
+	}
 	panicked, _ := vc.Catch(func() {
-		res, err := srp.VerifGetInputCheckPassword(pw, srpB, mp, random)
+		res, err := srp.VerifGetInputCheckPassword(pw, l.B, mp2, l.random)
 		switch {
 		case err != nil:
 			class = "err"
 		case res == nil:
 			class = "empty"
 		default:
-			class, A, M1 = "ok", res.GA, res.M1
+			class, A, M1 = "ok", append([]byte(nil), res.GA...), append([]byte(nil), res.M1...)
 		}
 	})
+	intact = intactStr(l.intact())
 	if panicked {
-		return "panic", nil, nil
+		return "panic", nil, nil, intact
 	}
 	return
 }
@@ -496,7 +603,9 @@ func exchange(id string, o xopts, r *vc.Rng) *outCase {
 	}
 
 	mp := &srp.ModPow{Salt1: o.s1, Salt2: o.s2, G: o.gval, P: o.g.P}
-	class, A, M1 := implSRP(typed, srpB, mp, random)
+	lay := layouts[r.Fork(77).Intn(len(layouts))]
+	class, A, M1, intact := implSRP(typed, srpB, mp, random, lay)
+	oc.stat("layout:" + lay)
 	verdict := "na"
 	if class == "ok" {
 		if sv.check(nil, A, M1) {
@@ -529,7 +638,7 @@ func exchange(id string, o xopts, r *vc.Rng) *outCase {
 	oc.lines = append(oc.lines, rc.me...)
 	oc.lines = append(oc.lines, strings.Join([]string{"x", id, o.g.mode, vc.HexS(o.pw), vc.HexS(typed), vc.Hex(o.s1), vc.Hex(o.s2),
 		zhex(gz), zhex(o.g.p), zhex(sv.b), vc.Hex(srpB), vc.Hex(random),
-		zhex(v), vc.Hex(pad(Bn)), class, vc.Hex(A), vc.Hex(M1), verdict, expect, strings.Join(tags, ",")}, "\t"))
+		zhex(v), vc.Hex(pad(Bn)), class, vc.Hex(A), vc.Hex(M1), verdict, expect, strings.Join(tags, ","), lay, intact}, "\t"))
 	return oc
 }
 
@@ -552,7 +661,9 @@ func rawCase(id, mode, pw string, srpB []byte, mp *srp.ModPow, random []byte, ta
 			expect = "err"
 		}
 	}
-	class, A, M1 := implSRP(pw, srpB, mp, random)
+	lay := layouts[(len(pw)+len(srpB)+len(random)+len(tag))%len(layouts)]
+	class, A, M1, intact := implSRP(pw, srpB, mp, random, lay)
+	oc.stat("layout:" + lay)
 	flag, s1, s2, g, P := "nil", "-", "-", "0", "-"
 	if mp != nil {
 		flag, s1, s2, g, P = "mp", vc.Hex(mp.Salt1), vc.Hex(mp.Salt2), zhex(big.NewInt(int64(mp.G))), vc.Hex(mp.P)
@@ -562,7 +673,7 @@ func rawCase(id, mode, pw string, srpB []byte, mp *srp.ModPow, random []byte, ta
 	oc.lines = append(oc.lines, rc.pb...)
 	oc.lines = append(oc.lines, rc.me...)
 	oc.lines = append(oc.lines, strings.Join([]string{"r", id, mode, vc.HexS(pw), vc.Hex(srpB), flag, s1, s2, g, P, vc.Hex(random),
-		class, vc.Hex(A), vc.Hex(M1), expect, tag}, "\t"))
+		class, vc.Hex(A), vc.Hex(M1), expect, tag, lay, intact}, "\t"))
 	return oc
 }
 
@@ -596,7 +707,10 @@ func exportedCaseReg(id string, g group, gval int32, reg, pw, apkind, tag string
 		srpB = pad(g.p)
 		expect = "err"
 	}
-	ap := buildAP(apkind, srpB, srpid, s1, s2, gval, g.P)
+	lay := layouts[r.Fork(78).Intn(len(layouts))]
+	l := layOut(lay, s1, s2, srpB, g.P, nil)
+	ap := buildAP(apkind, l.B, srpid, l.s1, l.s2, gval, l.P)
+	oc.stat("layout:" + lay)
 	if pw == "" && (apkind == "mp" || apkind == "badB") {
 		expect = "empty"
 	}
@@ -605,6 +719,7 @@ func exportedCaseReg(id string, g group, gval int32, reg, pw, apkind, tag string
 		refClient(rc, []byte(pw), srpB, s1, s2, gval, g.P, nil)
 	}
 	class, gotID, A, M1 := implExported(pw, ap)
+	intact := intactStr(l.intact())
 	verdict := "na"
 	if class == "srp" {
 		if sv.check(nil, A, M1) {
@@ -629,7 +744,7 @@ func exportedCaseReg(id string, g group, gval int32, reg, pw, apkind, tag string
 	oc.lines = append(oc.lines, rc.me...)
 	oc.lines = append(oc.lines, strings.Join([]string{"t", id, g.mode, vc.HexS(pw), apkind, vc.Hex(srpB), zhex(big.NewInt(srpid)),
 		vc.Hex(s1), vc.Hex(s2), zhex(gz), vc.Hex(g.P), zhex(sv.b), vc.HexS(reg),
-		class, zhex(big.NewInt(gotID)), vc.Hex(A), vc.Hex(M1), verdict, expect, expectVerdict, tag}, "\t"))
+		class, zhex(big.NewInt(gotID)), vc.Hex(A), vc.Hex(M1), verdict, expect, expectVerdict, tag, lay, intact}, "\t"))
 	return oc
 }
 
@@ -951,10 +1066,17 @@ func cmdGen(tier, path string) {
 	}
 }
 
-// one x regpw pw s1 s2 g p b srpB random     -> class A M1 verdict
-// one r pw srpB mpflag s1 s2 g P random       -> class A M1
-// one t pw apkind srpB srpid s1 s2 g P b regpw -> class srpid A M1 verdict
+// one x regpw pw s1 s2 g p b srpB random [layout]      -> class A M1 verdict inputs
+// one r pw srpB mpflag s1 s2 g P random [layout]        -> class A M1 inputs
+// one t pw apkind srpB srpid s1 s2 g P b regpw [layout] -> class srpid A M1 verdict inputs
+// (inputs = intact | MODIFIED: the backing arrays of the byte-slice arguments before/after)
 func cmdOne(a []string) {
+	layoutArg := func(i int) string {
+		if len(a) > i {
+			return a[i]
+		}
+		return "sep"
+	}
 	switch a[0] {
 	case "x":
 		regpw, pw, s1, s2 := vc.UnHex(a[1]), vc.UnHex(a[2]), vc.UnHex(a[3]), vc.UnHex(a[4])
@@ -963,7 +1085,7 @@ func cmdOne(a []string) {
 		v := register(nil, regpw, s1, s2, g, p)
 		sv := &refServer{s1, s2, g, p, v, b}
 		mp := &srp.ModPow{Salt1: s1, Salt2: s2, G: int32(g.Int64()), P: pad(p)}
-		class, A, M1 := implSRP(string(pw), srpB, mp, random)
+		class, A, M1, intact := implSRP(string(pw), srpB, mp, random, layoutArg(10))
 		verdict := "na"
 		if class == "ok" {
 			verdict = "rej"
@@ -971,18 +1093,19 @@ func cmdOne(a []string) {
 				verdict = "acc"
 			}
 		}
-		fmt.Printf("%s\t%s\t%s\t%s\n", class, vc.Hex(A), vc.Hex(M1), verdict)
+		fmt.Printf("%s\t%s\t%s\t%s\t%s\n", class, vc.Hex(A), vc.Hex(M1), verdict, intact)
 	case "r":
 		var mp *srp.ModPow
 		if a[3] == "mp" {
 			mp = &srp.ModPow{Salt1: vc.UnHex(a[4]), Salt2: vc.UnHex(a[5]), G: int32(unzhex(a[6]).Int64()), P: vc.UnHex(a[7])}
 		}
-		class, A, M1 := implSRP(string(vc.UnHex(a[1])), vc.UnHex(a[2]), mp, vc.UnHex(a[8]))
-		fmt.Printf("%s\t%s\t%s\n", class, vc.Hex(A), vc.Hex(M1))
+		class, A, M1, intact := implSRP(string(vc.UnHex(a[1])), vc.UnHex(a[2]), mp, vc.UnHex(a[8]), layoutArg(9))
+		fmt.Printf("%s\t%s\t%s\t%s\n", class, vc.Hex(A), vc.Hex(M1), intact)
 	case "t":
 		pw, apkind, srpB, srpid := string(vc.UnHex(a[1])), a[2], vc.UnHex(a[3]), unzhex(a[4]).Int64()
 		s1, s2, g, P, b := vc.UnHex(a[5]), vc.UnHex(a[6]), unzhex(a[7]), vc.UnHex(a[8]), unzhex(a[9])
-		ap := buildAP(apkind, srpB, srpid, s1, s2, int32(g.Int64()), P)
+		l := layOut(layoutArg(11), s1, s2, srpB, P, nil)
+		ap := buildAP(apkind, l.B, srpid, l.s1, l.s2, int32(g.Int64()), l.P)
 		reg := string(vc.UnHex(a[10]))
 		sv := &refServer{s1, s2, g, num(P), register(nil, []byte(reg), s1, s2, g, num(P)), b}
 		class, gotID, A, M1 := implExported(pw, ap)
@@ -993,7 +1116,7 @@ func cmdOne(a []string) {
 				verdict = "acc"
 			}
 		}
-		fmt.Printf("%s\t%s\t%s\t%s\t%s\n", class, zhex(big.NewInt(gotID)), vc.Hex(A), vc.Hex(M1), verdict)
+		fmt.Printf("%s\t%s\t%s\t%s\t%s\t%s\n", class, zhex(big.NewInt(gotID)), vc.Hex(A), vc.Hex(M1), verdict, intactStr(l.intact()))
 	default:
 		fmt.Fprintln(os.Stderr, "unknown kind", a[0])
 		os.Exit(3)
